@@ -120,3 +120,8 @@ impl SfTag {
         }
     }
 }
+
+// verification hook: bounded-model-checking harnesses (compiled only by Kani, `--cfg kani`)
+#[cfg(kani)]
+#[path = "/verif/harness/h_tags.rs"]
+mod verif;
